@@ -796,6 +796,42 @@ fn absurd_cases() -> Vec<AbsurdCase> {
 }
 
 #[derive(Clone, Debug, Serialize, Deserialize)]
+pub struct DeepCase {
+    pub axes: usize,
+    /// identity projection (otherwise: remove axis 1)
+    pub project: bool,
+}
+
+fn eval_deep(ctx: &Ctx, case: &DeepCase) -> Verdict {
+    let dir = ctx.worker_dir(crate::engine::worker_id());
+    let n = case.axes;
+    let mut lens = vec!["1"; n];
+    lens[0] = "3";
+    std::fs::write(dir.join("deep.sfs"), format!("#SHAPE=<{}>\n1 2 3\n", lens.join("/"))).expect("write");
+    let mut argv: Vec<String> = vec!["view".into()];
+    if case.project {
+        // one argument may not exceed 128 KiB: the list is split, clap appends the occurrences
+        for chunk in lens.chunks(40_000) {
+            argv.push("--project-shape".into());
+            argv.push(chunk.join(","));
+        }
+    } else {
+        argv.extend(["-m".to_string(), "1".to_string()]);
+    }
+    argv.push("deep.sfs".into());
+    let run = cli::sfs(ctx, &argv, Input::Null, &dir);
+    let what = format!("`sfs view {} deep.sfs` on a spectrum with {n} axes (3/1/1/...)", if case.project { "--project-shape 3,1,1,... (identity)" } else { "-m 1" });
+    ensure!(!run.stderr_str().contains("overflowed its stack"), "{what}: stack overflow: {}", cli::cut(&run.describe(), 300));
+    let mut pass = Pass::new();
+    let ex = judge(ctx, &run, &what)?;
+    finish(&mut pass, ex, &run);
+    if run.ok() {
+        ensure!(run.stdout_str().trim_end().ends_with("1.000000 2.000000 3.000000"), "{what}: unexpected values: {}", cli::cut(&run.stdout_str()[run.stdout_str().len().saturating_sub(80)..], 100));
+    }
+    Ok(pass)
+}
+
+#[derive(Clone, Debug, Serialize, Deserialize)]
 pub struct ManyPopsCase {
     pub n: usize,
     pub project: bool,
@@ -924,6 +960,76 @@ fn eval_bcf_mismatch(ctx: &Ctx, case: &BcfMismatchCase) -> Verdict {
         argv.push("mismatch.bcf".into());
         let run = cli::sfs(ctx, &argv, Input::Null, &dir);
         let ex = judge(ctx, &run, &format!("`sfs {}` on a BCF whose header names {} samples while every record carries {}", argv.join(" "), case.header_samples, case.record_samples))?;
+        finish(&mut pass, ex, &run);
+    }
+    Ok(pass)
+}
+
+// ---------------------------------------------------------------------------------------------
+// reserved values (missing / end-of-vector / reserved) planted in FORMAT fields other than GT
+
+#[derive(Clone, Debug, Serialize, Deserialize)]
+pub struct ReservedCase {
+    /// 0 = int8 field (DP), 1 = int16 vector (XL), 2 = float (XB)
+    pub field: u8,
+    /// index into the list of reserved bit patterns of that type
+    pub value: u8,
+    pub bgzf: bool,
+}
+
+fn eval_reserved(ctx: &Ctx, case: &ReservedCase) -> Verdict {
+    let dir = ctx.worker_dir(crate::engine::worker_id());
+    let cs = (2..40)
+        .map(|n| CallSet {
+            contigs: vec!["ctgR7".into()],
+            samples: (0..3).map(|i| format!("s{i}")).collect(),
+            records: (0..n as u64).map(|k| crate::gen::callset::Record { pos: 3 + k, fmt_dp: true, info: 8 | 32, ..crate::props::c10::fresh_record(3) }).collect(),
+        })
+        .find(|cs| !crate::gen::bcf::wide_dictionary(cs))
+        .expect("a call set with the narrow dictionary");
+    let (mut raw, offsets) = crate::gen::bcf::to_bcf(&cs);
+    let r = &cs.records[0];
+    let end = if offsets.len() > 1 { offsets[1] } else { raw.len() };
+    let rec = offsets[0]..end;
+    // locate the field's first sample value inside the first record and overwrite it
+    let (pattern, replacement): (Vec<u8>, Vec<u8>) = match case.field {
+        0 => {
+            let dp: Vec<u8> = (0..3).map(|i| (5 + (i as u64 + r.pos) % 30) as u8).collect();
+            let mut pat = vec![0x11u8];
+            pat.extend(&dp);
+            let v = [0x80u8, 0x81, 0x82, 0x83, 0x87][case.value as usize % 5];
+            (pat.clone(), vec![0x11, v, dp[1], dp[2]])
+        }
+        1 => {
+            let pl = r.pl_of(0);
+            let pat: Vec<u8> = pl.iter().flat_map(|v| (*v as i16).to_le_bytes()).collect();
+            let v: u16 = [0x8000u16, 0x8001, 0x8002, 0x8003, 0x8007][case.value as usize % 5];
+            let mut rep = pat.clone();
+            rep[2..4].copy_from_slice(&v.to_le_bytes());
+            (pat, rep)
+        }
+        _ => {
+            let mut pat = vec![0x15u8];
+            pat.extend(r.ab_of(0).to_le_bytes());
+            let v: u32 = [0x7f80_0001u32, 0x7f80_0002, 0x7f80_0003, 0x7f80_0007, 0x7fc0_0000][case.value as usize % 5];
+            let mut rep = vec![0x15u8];
+            rep.extend(v.to_le_bytes());
+            (pat, rep)
+        }
+    };
+    let at = raw[rec.clone()].windows(pattern.len()).position(|w| w == pattern.as_slice()).map(|p| p + rec.start);
+    let Some(at) = at else {
+        fail!("harness bug: field {} not found in the encoded record", case.field);
+    };
+    raw[at..at + replacement.len()].copy_from_slice(&replacement);
+    let bytes = if case.bgzf { crate::gen::bgzf::compress(&raw, &Layout::plain()).0 } else { raw };
+    std::fs::write(dir.join("reserved.bcf"), &bytes).expect("write");
+    let mut pass = Pass::new();
+    for c in [vec!["create"], vec!["create", "-s", "s1,s2"], vec!["create", "-p", "1"]] {
+        let mut argv: Vec<String> = c.iter().map(|s| s.to_string()).collect();
+        argv.push("reserved.bcf".into());
+        let run = cli::sfs(ctx, &argv, Input::Null, &dir);
+        let ex = judge(ctx, &run, &format!("`sfs {}` on a BCF whose {} field carries the reserved bit pattern no. {}", argv.join(" "), ["int8 FORMAT DP", "int16 FORMAT XL", "float FORMAT XB"][case.field as usize % 3], case.value))?;
         finish(&mut pass, ex, &run);
     }
     Ok(pass)
@@ -1075,6 +1181,36 @@ pub fn check(ctx: &Ctx) -> Check {
                 v
             }),
             eval: Box::new(eval_size),
+        }),
+        Box::new(EnumPart {
+            name: "reserved-values-in-format-fields",
+            rule: "a valid BCF (raw and BGZF) in which one value of a FORMAT field other than GT -- an int8 scalar, an int16 vector, a float -- is replaced by the type's missing / end-of-vector / reserved bit patterns (as htslib writes for missing values and padding, plus the reserved ones), through 3 create command lines",
+            exhaustive: true,
+            cases: Box::new(|_| {
+                let mut v = Vec::new();
+                for field in 0..3u8 {
+                    for value in 0..5u8 {
+                        for bgzf in [false, true] {
+                            v.push(ReservedCase { field, value, bgzf });
+                        }
+                    }
+                }
+                v
+            }),
+            eval: Box::new(eval_reserved),
+        }),
+        Box::new(EnumPart {
+            name: "very-many-axes",
+            rule: "(thorough tier only: reading such a header is quadratic in the number of axes, ~20 s per run) a text spectrum with 150 000 axes, the first of length 3 and the rest of length 1, through the identity projection and through the removal of an axis: success or a diagnosed failure, not a stack overflow (iterators that carry their odometer by recursion need one stack frame per axis)",
+            exhaustive: false,
+            cases: Box::new(|ctx: &Ctx| {
+                if ctx.tier == crate::engine::Tier::Thorough {
+                    vec![DeepCase { axes: 150_000, project: true }, DeepCase { axes: 150_000, project: false }]
+                } else {
+                    vec![]
+                }
+            }),
+            eval: Box::new(eval_deep),
         }),
         Box::new(EnumPart {
             name: "hostile-bcf-dictionary-index",
